@@ -73,15 +73,16 @@ def run_case(script, close_step):
     return res
 
 
-def explore_script(script):
-    """Reference run without close(), then close() injected before every step 0..K (and before clock jumps)."""
+def explore_script(script, tail_only: int = 0):
+    """Reference run without close(), then close() injected before every step 0..K (and before clock jumps);
+    tail_only > 0 restricts the injection to the last tail_only steps (long scripts)."""
     out = []
     errs, ref_log, K, dg, mt = run_case(script, None)
     out.append((None, errs, dg))
     errs2, ref_log2, K2, _, _ = run_case(script, None)
     if ref_log2 != ref_log or K2 != K:
         out.append((None, ["nondeterministic replay of the same schedule"], dg))
-    for k in range(K + 1):
+    for k in range(max(0, K - tail_only) if tail_only else 0, K + 1):
         errs, log, _, dg, _ = run_case(script, k)
         # divergence check: everything logged before step k must equal the reference run
         ci = next((i for i, e in enumerate(log) if e[0] == "close"), None)
@@ -105,7 +106,7 @@ def _work(task) -> core.Part:
     batch, = task
     p = core.Part()
     for script in batch:
-        res, K = explore_script(script)
+        res, K = explore_script(script, tail_only=40 if len(script) > 30 else 0)
         p.add("scripts")
         p.add("steps", K)
         for k, errs, dg in res:
@@ -179,6 +180,10 @@ def main(run: core.Run) -> int:
     nlong = 24 if q else 60
     for pat in ((("F", 0, None),), (("S", 0, 1),), (("F", 0, None), ("S", 0, 7)), (("S", 0, 0), ("S", 0, 1), ("F", 0, None))):
         allscripts.append(tuple((pat * nlong)[:nlong]))  # a counter/threshold on the number of reconnects shows only in long scripts
+    # long outages followed by a recovery: F^k then a success that stays up / is lost (close() at the last 40 steps only)
+    for k in ((31, 47, 48, 64, 65, 80) if q else tuple(range(31, 100, 3)) + (47, 48, 64, 65, 128)):
+        allscripts.append(tuple([("F", 0, None)] * k + [("S", 0, None)]))
+        allscripts.append(tuple([("F", 0, None)] * k + [("S", 0, 1), ("S", 0, None)]))
     batches = [(allscripts[i::64],) for i in range(64)]
     run.log(f"{len(allscripts)} scripts")
     run.merge(par.pmap(_work, batches, seed=run.seed))
@@ -187,7 +192,7 @@ def main(run: core.Run) -> int:
     tot = run.total
     tot.sample({"script": [["F", 0, None], ["S", 2, None]], "close_before_step": 7, "meaning": "close() lands while the second attempt is pending"})
     tot.sample({"script": [["S", 0, 1], ["S", 0, None]], "close_before_step": "every k in 0..K"})
-    run.bounds = {"script_length": L if q else "4 (all outcomes) and 5 (fast outcomes)", "scripts": len(allscripts), "close_positions": "every step of every script", "long_scripts": f"4 periodic scripts of {nlong} attempts, close() at every step", "cycles_for_task_bound": cyc,
+    run.bounds = {"script_length": L if q else "4 (all outcomes) and 5 (fast outcomes)", "scripts": len(allscripts), "close_positions": "every step of every script", "outage_then_recovery": "31..128 consecutive failures followed by a success (close() injected at the last 40 steps)", "long_scripts": f"4 periodic scripts of {nlong} attempts, close() at every step", "cycles_for_task_bound": cyc,
                   "external_events": "one close() per run"}
     run.assumptions = ["the explorer owns the clock (virtual), the callback order (FIFO of the stock loop) and the factory; CPython GC timing is not owned and no oracle reads it",
                        "asyncio internals _ready/_scheduled as in CPython 3.12 (asserted at start-up)", "han.meter_connection.datetime is substituted by a shim reading the virtual clock"]
